@@ -85,8 +85,19 @@ def probe(tree, rec, calls, out, order):
         return viol
     demes = [d for lvl in tree._levels for d in lvl]
     idx = {did: k for k, did in enumerate(order)}
-    bests = {d._id: d.best_individual for d in demes}
-    gb = tree.best_individual
+    # the tree's own state, read from the raw histories (not through the accessors under test)
+    def raw_best(ds):
+        inds = [i for d in ds for me in d._history for g in me for i in g]
+        return max(inds) if inds else None
+    bests = {d._id: raw_best([d]) for d in demes}
+    gb = raw_best(demes)
+    acc_best = answers.get("best_individual")
+    if acc_best is not None and fbits(acc_best.fitness) != fbits(gb.fitness) and acc_best.fitness != gb.fitness:
+        viol.append({"key": "C20/best-accessor", "what": f"tree.best_individual reports fitness {acc_best.fitness!r} but the best individual stored in the histories has {gb.fitness!r} "
+                                                     f"(metaepoch {tree.metaepoch_count})"})
+    for d, b in zip(demes, answers.get("deme bests") or []):
+        if b is not None and bests[d._id] is not None and b.fitness != bests[d._id].fitness:
+            viol.append({"key": "C20/deme-best-accessor", "what": f"deme {d._id}.best_individual reports {b.fitness!r}, its history holds {bests[d._id].fitness!r}"})
     lines = text.split("\n")
     exp = []
     head = text.split("\nLevel 1.")[0]
@@ -126,6 +137,7 @@ def probe(tree, rec, calls, out, order):
         exp += list(lv_info.get(lv, (-7, -7)))
     exp.append(-1)
     tl = [ln for ln in ttext.split("\n") if ln.strip()]
+    shown = []
     for ln in tl:
         mm = LINE.match(ln)
         if not mm:
@@ -141,6 +153,17 @@ def probe(tree, rec, calls, out, order):
         if mm.group("f") != f"{bests[did].fitness:.2e}":
             viol.append({"key": "C20/line-best", "what": f"tree() shows best {mm.group('f')} for deme {did}, its best is {bests[did].fitness:.2e}"})
         exp += [idx[did], int(mm.group("ev")), 1 if mm.group("new") else 0, 1 if mm.group("mark").strip() else 0]
+        shown.append(did)
+        if int(mm.group("ev")) != int(d.n_evaluations):
+            viol.append({"key": "C20/line-evals", "what": f"tree() shows {mm.group('ev')} evaluations for deme {did}, its counter says {int(d.n_evaluations)}"})
+        if bool(mm.group("mark").strip()) != (bests[did].fitness == gb.fitness):
+            viol.append({"key": "C20/marker", "what": f"deme {did} (best {bests[did].fitness!r}) is {'marked' if mm.group('mark').strip() else 'not marked'} *** while the global best is {gb.fitness!r} "
+                                                  f"(metaepoch {tree.metaepoch_count})"})
+    want_shown = [d._id for d in demes if d._id == "root" or len(d._history) - 1 >= 1]
+    if sorted(shown) != sorted(want_shown):
+        viol.append({"key": "C20/lines", "what": f"tree() shows demes {sorted(shown)}; the root plus the demes that have run a metaepoch are {sorted(want_shown)}"})
+    if ne != sum(int(d.n_evaluations) for d in demes) or nd != len(demes) or m != tree.metaepoch_count:
+        viol.append({"key": "C20/totals", "what": f"summary() prints metaepoch {m}, {ne} evaluations, {nd} demes; the tree has {tree.metaepoch_count}, {sum(int(d.n_evaluations) for d in demes)}, {len(demes)}"})
     if ttext not in text:
         viol.append({"key": "C20/summary-tree", "what": "summary() does not embed tree()"})
     # ---- model term
@@ -158,6 +181,24 @@ def probe(tree, rec, calls, out, order):
     out.append({"term": f"rep {H} {tree.metaepoch_count} [{'; '.join(ds_terms)}] {zs(best_keys)} {('(%d)%%Z' % gk) if gk < 0 else ('%d%%Z' % gk)}", "expected": exp,
                 "m": tree.metaepoch_count, "lines": len(tl), "marked": sum(1 for ln in tl if "***" in ln), "text": ttext[:600]})
     return viol
+
+
+def install_looking_gsc(tree, rec, info):
+    """wraps the tree's stop condition by a user-style condition that LOOKS at the tree (best individual, summary) at every consult"""
+    inner = tree._gsc
+
+    class Looking:
+        def __call__(self, t):
+            try:
+                t.best_individual
+                t.n_evaluations
+            except Exception:
+                pass
+            return inner(t)
+
+        def __str__(self):
+            return f"Looking({inner})"
+    tree._gsc = Looking()
 
 
 def _work(seed):
@@ -187,7 +228,7 @@ def _work(seed):
             tree.run_step()
             steps += 1
     with common.time_limit(common.RUN_LIMIT):
-        res = rec.run_spec(spec, mode=mode)
+        res = rec.run_spec(spec, mode=mode, probes={"after_init": install_looking_gsc})
     return {"seed": seed, "spec": spec, "error": res["error"], "cases": out, "viol": viol, "engines": [l["engine"] for l in spec["levels"]]}
 
 
